@@ -1746,3 +1746,76 @@ pub(crate) fn stopped_tape_with_level(level: bool) -> Tap<crate::host::BufferCur
     t.curr_bit = level;
     t
 }
+
+// ---- lead: C16 - the tape reader must not depend on how the host asset chunks its reads ----------
+
+/// Tape asset that returns arbitrary short reads (contract: 1..=buf.len() bytes, 0 only at end of file).
+pub(crate) struct ChunkyTape {
+    pub data: [u8; 8],
+    pub len: usize,
+    pub pos: usize,
+}
+
+impl LoadableAsset for ChunkyTape {
+    fn read(&mut self, buf: &mut [u8]) -> core::result::Result<usize, crate::error::IoError> {
+        if self.pos >= self.len {
+            // same end-of-file convention as the in-memory cursor
+            return Err(crate::error::IoError::UnexpectedEof);
+        }
+        if buf.is_empty() {
+            return Ok(0);
+        }
+        let avail = self.len - self.pos;
+        let max = if buf.len() < avail { buf.len() } else { avail };
+        let n: usize = kani::any();
+        kani::assume(n >= 1 && n <= max);
+        let mut i = 0;
+        while i < 8 {
+            if i < n {
+                buf[i] = self.data[self.pos + i];
+            }
+            i += 1;
+        }
+        self.pos += n;
+        Ok(n)
+    }
+}
+
+impl SeekableAsset for ChunkyTape {
+    fn seek(&mut self, pos: SeekFrom) -> core::result::Result<usize, crate::error::IoError> {
+        match pos {
+            SeekFrom::Start(p) => self.pos = p,
+            SeekFrom::End(d) => self.pos = (self.len as isize + d) as usize,
+            SeekFrom::Current(d) => self.pos = (self.pos as isize + d) as usize,
+        }
+        Ok(self.pos)
+    }
+}
+
+// @harness
+// @prop C16 C10
+// @tier quick
+// @timeout 900
+// @fn Tap::from_asset; Tap::next_block; Tap::next_block_byte; LoadableAsset::read_exact (as used by the tape reader)
+// @sym contents of a two-block tape image (block lengths 2 and 1: layout literal, bytes symbolic) and the size of EVERY read the host asset chooses to return (any chunking, down to one byte at a time)
+// @assert whatever the read chunking, the tape reader delivers exactly the image's blocks: block 1 = its two bytes in order, block 2 = its byte, then end of tape - the same as with the in-memory cursor (C10's stream harnesses)
+// @bound 7-byte image, two blocks (unwind 10)
+#[kani::proof]
+#[kani::unwind(10)]
+fn c16_tape_blocks_do_not_depend_on_read_chunking() {
+    let (b0, b1, c0): (u8, u8, u8) = (kani::any(), kani::any(), kani::any());
+    let asset = ChunkyTape { data: [2, 0, b0, b1, 1, 0, c0, 0], len: 7, pos: 0 };
+    let mut t = match Tap::from_asset(asset) {
+        Ok(t) => t,
+        Err(_) => unreachable!(),
+    };
+    kani::assert(matches!(t.next_block(), Ok(true)), "c16.tape_chunks.first_block_found");
+    kani::assert(matches!(t.next_block_byte(), Ok(Some(x)) if x == b0), "c16.tape_chunks.block1_byte0");
+    kani::assert(matches!(t.next_block_byte(), Ok(Some(x)) if x == b1), "c16.tape_chunks.block1_byte1");
+    kani::assert(matches!(t.next_block_byte(), Ok(None)), "c16.tape_chunks.block1_ends");
+    kani::assert(matches!(t.next_block(), Ok(true)), "c16.tape_chunks.second_block_found");
+    kani::assert(matches!(t.next_block_byte(), Ok(Some(x)) if x == c0), "c16.tape_chunks.block2_byte0");
+    kani::assert(matches!(t.next_block_byte(), Ok(None)), "c16.tape_chunks.block2_ends");
+    kani::assert(matches!(t.next_block(), Ok(false)), "c16.tape_chunks.end_of_tape");
+    kani::cover!(t.asset.pos == 7, "whole image consumed");
+}
